@@ -17,6 +17,7 @@ namespace view = nmtools::view;
 template <class E> struct Client {
     std::string what; Shape shape; std::vector<size_t> map;   // view flat index -> logical (row-major) flat index of the source
     std::function<E(const Shape&)> read; std::function<void(const Shape&, E)> write;
+    std::function<void(const std::vector<E>&)> assign_all;   // view = ndarray of the view's shape (mutable_indexing_t::operator=), when offered
 };
 
 // one slice per axis: form 0 (None,None,step), form 1 (start,stop,step>0), form 2 integer index
@@ -41,18 +42,28 @@ inline std::string spec_str(const SliceSpec& s) {
     return "[" + std::to_string(s.a) + "]";
 }
 
+template <class V, class E> void bind_assign(Client<E>& c, std::shared_ptr<V> pv) {
+    using src_t = na::ndarray_t<std::vector<E>, std::vector<size_t>>;
+    if constexpr (std::is_assignable<V&, const src_t&>::value) {
+        Shape vs = c.shape;
+        c.assign_all = [pv, vs](const std::vector<E>& vals) { src_t tmp{}; tmp.resize(vs); E* p = nm::data(tmp); for (size_t i = 0; i < vals.size(); i++) p[i] = vals[i]; (*pv) = tmp; };
+    }
+}
+
 template <class V, class E> void bind_view(Client<E>& c, V v) {
     auto pv = std::make_shared<V>(v);
     c.read = [pv](const Shape& idx) -> E { const V& cv = *pv; const size_t* p = idx.data();
         switch (idx.size()) { case 1: return cv(p[0]); case 2: return cv(p[0], p[1]); case 3: return cv(p[0], p[1], p[2]); default: return cv(p[0], p[1], p[2], p[3]); } };
     c.write = [pv](const Shape& idx, E val) { V& mv = *pv; const size_t* p = idx.data();
         switch (idx.size()) { case 1: mv(p[0]) = val; break; case 2: mv(p[0], p[1]) = val; break; case 3: mv(p[0], p[1], p[2]) = val; break; default: mv(p[0], p[1], p[2], p[3]) = val; } };
+    bind_assign(c, pv);
 }
 // views whose rank is fixed at compile time (slices): only that rank may be instantiated
 template <size_t R, class V, class E> void bind_view_rank(Client<E>& c, V v) {
     auto pv = std::make_shared<V>(v);
     c.read = [pv](const Shape& idx) -> E { const V& cv = *pv; return call_idx(cv, idx.data(), std::make_index_sequence<R>{}); };
     c.write = [pv](const Shape& idx, E val) { V& mv = *pv; call_idx(mv, idx.data(), std::make_index_sequence<R>{}) = val; };
+    bind_assign(c, pv);
 }
 
 template <class Tr>
@@ -71,7 +82,7 @@ struct ViewTarget : Target {
         for (size_t i = 0; i < nv; i++) { Step s; s.op = "view"; rnd(s); s.a[0] = (long)r.below(4); if (r.chance(0.35)) s.a[0] = 2; p.steps.push_back(s); }
         size_t len = (tier == "thorough" ? 4 + r.below(40) : 3 + r.below(20));
         for (size_t k = 0; k < len; k++) {
-            Step s; s.op = r.chance(0.8) ? "write" : (r.chance(0.5) ? "read" : "view"); rnd(s);
+            Step s; s.op = r.chance(0.75) ? "write" : (r.chance(0.4) ? "read" : r.chance(0.5) ? "view" : "assign_view"); rnd(s);
             if (s.op == "view") { s.a[0] = (long)r.below(4); }
             s.a[1] = (long)r.below(64);
             p.steps.push_back(s);
@@ -239,6 +250,21 @@ struct ViewTarget : Target {
             }
             E now; std::memcpy(&now, b + off, sizeof(E));
             if (std::memcmp(&now, &v, sizeof(E)) != 0) { env->violation("EXACTLY_ONE", nm + ": write through " + c.what + shape_str(idx) + " did not reach source element " + shape_str(unravel(L, shape))); return; }
+            take_snapshot();
+            check_all(stepno);
+        } else if (st.op == "assign_view") {
+            if (!c.assign_all) { probe("assign_view.not_offered"); return; }
+            std::vector<E> vals; for (size_t i = 0; i < vn; i++) vals.push_back(val(env->next_value()));
+            { Sut x; c.assign_all(vals); }
+            // the model: every mapped element gets its value, in view order (a later view index wins if two map to one element)
+            std::vector<char> touched(model.size(), 0);
+            for (size_t i = 0; i < vn; i++) { model[c.map[i]] = vals[i]; touched[c.map[i]] = 1; }
+            env->applied("assign_view", c.what, true); env->interesting = true;
+            Shape lay = Tr::col_major ? col_major_strides(shape) : row_major_strides(shape);
+            const unsigned char* b = buf(); size_t nb = buf_bytes();
+            std::vector<char> allowed(nb, 0);
+            for (size_t Lx = 0; Lx < model.size(); Lx++) if (touched[Lx]) { size_t off = dot(unravel(Lx, shape), lay) * sizeof(E); for (size_t k2 = 0; k2 < sizeof(E) && off + k2 < nb; k2++) allowed[off + k2] = 1; }
+            for (size_t i = 0; i < nb && i < snap.size(); i++) if (b[i] != snap[i] && !allowed[i]) { env->violation("EXACTLY_ONE", nm + ": assignment to " + c.what + " changed buffer element " + std::to_string(i / sizeof(E)) + " which the view does not address"); return; }
             take_snapshot();
             check_all(stepno);
         } else if (st.op == "read") {
